@@ -227,9 +227,14 @@ def new_version(data, allow_custom=None, **kwargs):
 
             sco_locked_props = cls._id_contributing_properties
 
+    # (the custom_properties keyword is just another way to pass properties)
+    custom_props = kwargs.get("custom_properties")
+    if not isinstance(custom_props, dict):
+        custom_props = {}
+
     unchangable_properties = set()
     for prop in itertools.chain(STIX_UNMOD_PROPERTIES, sco_locked_props):
-        if prop in kwargs:
+        if prop in kwargs or prop in custom_props:
             unchangable_properties.add(prop)
     if unchangable_properties:
         raise UnmodifiablePropertyError(unchangable_properties)
